@@ -181,15 +181,16 @@ func Sparse6Decode(s string) (*SparseGraph, error) {
 		if bitIndex == 6 {
 			bitIndex = 0
 			i++
-			if i >= len(s) {
-				return g, nil
-			}
 		}
 		if b == 1 {
 			v++
 		}
 		x := 0
 		for j := 0; j < k; j++ {
+			//An incomplete pair at the end is discarded but a pair which ends with the string is not.
+			if i >= len(s) {
+				return g, nil
+			}
 			if ((s[i]-63)>>(5-bitIndex))&1 == 1 {
 				x |= 1 << uint(k-j-1)
 			}
@@ -197,9 +198,6 @@ func Sparse6Decode(s string) (*SparseGraph, error) {
 			if bitIndex == 6 {
 				bitIndex = 0
 				i++
-				if i >= len(s) {
-					return g, nil
-				}
 			}
 		}
 		if x > v {
